@@ -1,0 +1,630 @@
+//! Verification hooks (cargo feature `verif-hooks`, off by default).
+//!
+//! This module is a facade over crate-private items plus a few thread-local registries that an
+//! external model-checking harness arms. Nothing here fires unless the harness armed the
+//! corresponding thread-local on the same thread; with the feature off the module does not exist.
+
+use crate::{
+    handler::verif_access as h,
+    node_info::{NodeAddress, NodeContact},
+    packet::{ChallengeData, MessageNonce, Packet, PacketHeader, PacketKind},
+    Enr, ProtocolIdentity,
+};
+use enr::{CombinedKey, CombinedPublicKey, NodeId};
+use parking_lot::RwLock;
+use std::{
+    cell::{Cell, RefCell},
+    collections::HashMap,
+    convert::TryFrom,
+    net::SocketAddr,
+    sync::Arc,
+    time::{Duration, Instant},
+};
+use tokio::sync::{mpsc, oneshot};
+
+/* ---------------------------------------------------------------------------------------- */
+/* Re-exports of `pub` items that live behind crate-private paths                            */
+/* ---------------------------------------------------------------------------------------- */
+
+pub use crate::handler::{ConnectionDirection, Handler, HandlerIn, HandlerOut, WhoAreYouRef};
+pub use crate::kbucket::filter::Filter as TableFilter;
+pub use crate::lru_time_cache::LruTimeCache;
+pub use crate::query_pool::verif_reexports::{FindNodeQuery, FindNodeQueryConfig, QueryState};
+pub use crate::query_pool::{Query, QueryId, QueryPool, QueryPoolState, QueryResult, TargetKey};
+pub use crate::rpc::{Message, Request, RequestBody, RequestId, Response, ResponseBody};
+pub use crate::service::Pong;
+pub use crate::socket::verif_reexports::{LimitKind, Limiter, Quota, RateLimitedErr};
+
+/* ---------------------------------------------------------------------------------------- */
+/* Packet codec facade                                                                       */
+/* ---------------------------------------------------------------------------------------- */
+
+/// A public mirror of the crate-private `Packet`.
+#[derive(Debug, Clone, PartialEq, Eq)]
+pub struct VPacket {
+    pub iv: u128,
+    pub message_nonce: MessageNonce,
+    pub kind: PacketKind,
+    pub message: Vec<u8>,
+}
+
+impl VPacket {
+    pub(crate) fn from_packet(p: Packet) -> Self {
+        VPacket {
+            iv: p.iv,
+            message_nonce: p.header.message_nonce,
+            kind: p.header.kind,
+            message: p.message,
+        }
+    }
+
+    pub(crate) fn into_packet(self, protocol_identity: ProtocolIdentity) -> Packet {
+        Packet {
+            iv: self.iv,
+            header: PacketHeader {
+                message_nonce: self.message_nonce,
+                protocol_identity,
+                kind: self.kind,
+            },
+            message: self.message,
+        }
+    }
+
+    /// `Packet::encode` of the real codec.
+    pub fn encode(self, dst_id: &NodeId) -> Vec<u8> {
+        self.into_packet(ProtocolIdentity::default()).encode(dst_id)
+    }
+
+    pub fn encode_with_identity(self, dst_id: &NodeId, identity: ProtocolIdentity) -> Vec<u8> {
+        self.into_packet(identity).encode(dst_id)
+    }
+
+    /// `Packet::authenticated_data` of the real codec (IV ‖ unmasked header).
+    pub fn authenticated_data(&self) -> Vec<u8> {
+        self.clone()
+            .into_packet(ProtocolIdentity::default())
+            .authenticated_data()
+    }
+
+    /// `Packet::decode` of the real codec. Errors are rendered with `Debug`.
+    pub fn decode(local_id: &NodeId, data: &[u8]) -> Result<(VPacket, Vec<u8>), String> {
+        Self::decode_with_identity(local_id, ProtocolIdentity::default(), data)
+    }
+
+    pub fn decode_with_identity(
+        local_id: &NodeId,
+        identity: ProtocolIdentity,
+        data: &[u8],
+    ) -> Result<(VPacket, Vec<u8>), String> {
+        Packet::decode(local_id, identity, data)
+            .map(|(p, aad)| (VPacket::from_packet(p), aad))
+            .map_err(|e| format!("{e:?}"))
+    }
+
+    pub fn new_random(src_id: &NodeId) -> VPacket {
+        VPacket::from_packet(
+            Packet::new_random(src_id, ProtocolIdentity::default()).expect("rng"),
+        )
+    }
+
+    pub fn new_whoareyou(request_nonce: MessageNonce, id_nonce: [u8; 16], enr_seq: u64) -> VPacket {
+        VPacket::from_packet(Packet::new_whoareyou(
+            request_nonce,
+            id_nonce,
+            ProtocolIdentity::default(),
+            enr_seq,
+        ))
+    }
+}
+
+pub const MAX_PACKET_SIZE: usize = crate::packet::MAX_PACKET_SIZE;
+
+/* ---------------------------------------------------------------------------------------- */
+/* Crypto / session toolkit (what a protocol participant holding `key` can compute)          */
+/* ---------------------------------------------------------------------------------------- */
+
+pub type SessionKey = [u8; 16];
+
+fn challenge(data: &[u8]) -> Result<ChallengeData, String> {
+    ChallengeData::try_from(data).map_err(|_| "challenge data must be 63 bytes".to_string())
+}
+
+/// `crypto::generate_session_keys`: (initiator key, recipient key, ephemeral public key).
+pub fn generate_session_keys(
+    local_id: &NodeId,
+    contact: &NodeContact,
+    challenge_data: &[u8],
+) -> Result<(SessionKey, SessionKey, Vec<u8>), String> {
+    h::generate_session_keys(local_id, contact, &challenge(challenge_data)?)
+        .map_err(|e| format!("{e:?}"))
+}
+
+/// `crypto::derive_keys_from_pubkey`: (initiator key, recipient key) on the recipient's side.
+pub fn derive_keys_from_pubkey(
+    local_key: &CombinedKey,
+    local_id: &NodeId,
+    remote_id: &NodeId,
+    challenge_data: &[u8],
+    ephem_pubkey: &[u8],
+) -> Result<(SessionKey, SessionKey), String> {
+    h::derive_keys_from_pubkey(
+        local_key,
+        local_id,
+        remote_id,
+        &challenge(challenge_data)?,
+        ephem_pubkey,
+    )
+    .map_err(|e| format!("{e:?}"))
+}
+
+pub fn sign_nonce(
+    signing_key: &CombinedKey,
+    challenge_data: &[u8],
+    ephem_pubkey: &[u8],
+    dst_id: &NodeId,
+) -> Result<Vec<u8>, String> {
+    h::sign_nonce(signing_key, &challenge(challenge_data)?, ephem_pubkey, dst_id)
+        .map_err(|e| format!("{e:?}"))
+}
+
+pub fn verify_authentication_nonce(
+    remote_pubkey: &CombinedPublicKey,
+    remote_ephem_pubkey: &[u8],
+    challenge_data: &[u8],
+    dst_id: &NodeId,
+    sig: &[u8],
+) -> bool {
+    match challenge(challenge_data) {
+        Ok(c) => h::verify_authentication_nonce(remote_pubkey, remote_ephem_pubkey, &c, dst_id, sig),
+        Err(_) => false,
+    }
+}
+
+pub fn aead_encrypt(
+    key: &SessionKey,
+    nonce: MessageNonce,
+    msg: &[u8],
+    aad: &[u8],
+) -> Result<Vec<u8>, String> {
+    h::encrypt_message(key, nonce, msg, aad).map_err(|e| format!("{e:?}"))
+}
+
+pub fn aead_decrypt(
+    key: &SessionKey,
+    nonce: MessageNonce,
+    msg: &[u8],
+    aad: &[u8],
+) -> Result<Vec<u8>, String> {
+    h::decrypt_message(key, nonce, msg, aad).map_err(|e| format!("{e:?}"))
+}
+
+/// The real `Session::encrypt_with_header`: handshake packet answering `challenge_data`, plus
+/// the (encryption, decryption) keys of the session it creates on the sender's side.
+pub fn encrypt_with_header(
+    remote_contact: &NodeContact,
+    local_key: CombinedKey,
+    updated_enr: Option<Enr>,
+    local_node_id: &NodeId,
+    challenge_data: &[u8],
+    message: &[u8],
+) -> Result<(VPacket, SessionKey, SessionKey), String> {
+    let (packet, session) = h::Session::encrypt_with_header(
+        remote_contact,
+        Arc::new(RwLock::new(local_key)),
+        updated_enr,
+        local_node_id,
+        ProtocolIdentity::default(),
+        &challenge(challenge_data)?,
+        message,
+    )
+    .map_err(|e| format!("{e:?}"))?;
+    let (enc, dec) = session.verif_keys();
+    Ok((VPacket::from_packet(packet), enc, dec))
+}
+
+/// A real `Session` owned by the harness (used to play a peer, or to measure wire sizes).
+pub struct VSession(h::Session);
+
+impl VSession {
+    pub fn from_keys(encryption_key: SessionKey, decryption_key: SessionKey) -> Self {
+        VSession(h::Session::verif_from_keys(encryption_key, decryption_key))
+    }
+
+    /// The real `Session::encrypt_message`.
+    pub fn encrypt_message(&mut self, src_id: NodeId, message: &[u8]) -> Result<VPacket, String> {
+        self.0
+            .encrypt_message(src_id, message, ProtocolIdentity::default())
+            .map(VPacket::from_packet)
+            .map_err(|e| format!("{e:?}"))
+    }
+
+    /// The real `Session::decrypt_message`.
+    pub fn decrypt_message(
+        &mut self,
+        nonce: MessageNonce,
+        message: &[u8],
+        aad: &[u8],
+    ) -> Result<Vec<u8>, String> {
+        self.0
+            .decrypt_message(nonce, message, aad)
+            .map_err(|e| format!("{e:?}"))
+    }
+
+    pub fn counter(&self) -> u32 {
+        self.0.verif_counter()
+    }
+}
+
+/* ---------------------------------------------------------------------------------------- */
+/* Thread-local registries armed by the harness                                              */
+/* ---------------------------------------------------------------------------------------- */
+
+/// What `Handler::spawn` returns.
+pub type HandlerChannels = (
+    oneshot::Sender<()>,
+    mpsc::UnboundedSender<HandlerIn>,
+    mpsc::Receiver<HandlerOut>,
+);
+
+thread_local! {
+    static VIRTUAL_SOCKET: Cell<bool> = const { Cell::new(false) };
+    static WIRES: RefCell<Vec<VirtualWire>> = const { RefCell::new(Vec::new()) };
+    static SCRIPTED_HANDLER: RefCell<Option<HandlerChannels>> = const { RefCell::new(None) };
+    static SNAPSHOTS: RefCell<HashMap<NodeId, HandlerSnapshot>> = RefCell::new(HashMap::new());
+    static SNAPSHOTS_ON: Cell<bool> = const { Cell::new(false) };
+    static NONCE_OVERRIDE: Cell<Option<[u8; 8]>> = const { Cell::new(None) };
+}
+
+/// While armed, `Socket::new` on this thread builds a virtual socket and registers its wire.
+pub fn arm_virtual_socket(on: bool) {
+    VIRTUAL_SOCKET.with(|c| c.set(on));
+}
+
+pub(crate) fn virtual_socket_armed() -> bool {
+    VIRTUAL_SOCKET.with(|c| c.get())
+}
+
+pub(crate) fn register_wire(wire: VirtualWire) {
+    WIRES.with(|w| w.borrow_mut().push(wire));
+}
+
+/// Takes the wire registered by the most recent virtual `Socket::new` of this thread.
+pub fn take_wire() -> Option<VirtualWire> {
+    WIRES.with(|w| w.borrow_mut().pop())
+}
+
+/// The next `Handler::spawn` on this thread returns these channel ends instead of spawning.
+pub fn set_scripted_handler(channels: HandlerChannels) {
+    SCRIPTED_HANDLER.with(|s| *s.borrow_mut() = Some(channels));
+}
+
+pub(crate) fn take_scripted_handler() -> Option<HandlerChannels> {
+    SCRIPTED_HANDLER.with(|s| s.borrow_mut().take())
+}
+
+/// While on, every handler of this thread publishes a snapshot at the top of its event loop.
+pub fn arm_snapshots(on: bool) {
+    SNAPSHOTS_ON.with(|c| c.set(on));
+    if !on {
+        SNAPSHOTS.with(|s| s.borrow_mut().clear());
+    }
+}
+
+pub(crate) fn snapshots_armed() -> bool {
+    SNAPSHOTS_ON.with(|c| c.get())
+}
+
+pub(crate) fn publish_snapshot(node_id: NodeId, snapshot: HandlerSnapshot) {
+    SNAPSHOTS.with(|s| {
+        s.borrow_mut().insert(node_id, snapshot);
+    });
+}
+
+pub fn snapshot(node_id: &NodeId) -> Option<HandlerSnapshot> {
+    SNAPSHOTS.with(|s| s.borrow().get(node_id).cloned())
+}
+
+pub fn clear_snapshots() {
+    SNAPSHOTS.with(|s| s.borrow_mut().clear());
+}
+
+/// Forces the 8 "random" bytes of every message nonce produced on this thread (worst-case RNG).
+pub fn set_nonce_random_override(v: Option<[u8; 8]>) {
+    NONCE_OVERRIDE.with(|c| c.set(v));
+}
+
+pub(crate) fn nonce_random_override(random: [u8; 8]) -> [u8; 8] {
+    NONCE_OVERRIDE.with(|c| c.get()).unwrap_or(random)
+}
+
+/* ---------------------------------------------------------------------------------------- */
+/* Virtual wire                                                                              */
+/* ---------------------------------------------------------------------------------------- */
+
+/// A datagram the handler handed to its (virtual) send task.
+#[derive(Debug, Clone)]
+pub struct VOutbound {
+    pub dst: NodeAddress,
+    pub packet: VPacket,
+    /// Exactly what `SendHandler` would have put on the wire: `packet.encode(&dst.node_id)`.
+    pub bytes: Vec<u8>,
+}
+
+/// Harness end of a virtual socket: the outbound queue and the *real* receive path.
+pub struct VirtualWire {
+    pub node_id: NodeId,
+    pub(crate) outbound: mpsc::Receiver<crate::socket::send::OutboundPacket>,
+    pub(crate) recv: crate::socket::recv::RecvHandler,
+    pub(crate) expected_responses: Arc<RwLock<HashMap<SocketAddr, usize>>>,
+    pub(crate) _exits: (oneshot::Receiver<()>, oneshot::Receiver<()>),
+}
+
+impl VirtualWire {
+    pub fn try_recv_outbound(&mut self) -> Option<VOutbound> {
+        match self.outbound.try_recv() {
+            Ok(out) => {
+                let packet = VPacket::from_packet(out.packet.clone());
+                let bytes = out.packet.encode(&out.node_address.node_id);
+                Some(VOutbound {
+                    dst: out.node_address,
+                    packet,
+                    bytes,
+                })
+            }
+            Err(_) => None,
+        }
+    }
+
+    /// Feeds a datagram through the real `RecvHandler::handle_inbound` (exemption lookup, packet
+    /// filter, `Packet::decode`) into the handler's `socket.recv` channel.
+    pub async fn inject(&mut self, src: SocketAddr, bytes: &[u8]) {
+        self.recv.verif_inject(src, bytes).await
+    }
+
+    /// The shared exemption map (`filter_expected_responses`), sorted.
+    pub fn exemptions(&self) -> Vec<(SocketAddr, usize)> {
+        let mut v: Vec<_> = self
+            .expected_responses
+            .read()
+            .iter()
+            .map(|(a, c)| (*a, *c))
+            .collect();
+        v.sort();
+        v
+    }
+
+    /// What the receive task does on its 30 s tick.
+    pub fn prune_filter(&mut self) {
+        self.recv.verif_prune();
+    }
+
+    /// True if the handler side of the inbound channel is gone (handler exited).
+    pub fn handler_gone(&self) -> bool {
+        self.recv.verif_handler_closed()
+    }
+}
+
+/* ---------------------------------------------------------------------------------------- */
+/* Handler snapshots                                                                         */
+/* ---------------------------------------------------------------------------------------- */
+
+#[derive(Debug, Clone)]
+pub struct SessionSnap {
+    pub addr: NodeAddress,
+    pub encryption_key: SessionKey,
+    pub decryption_key: SessionKey,
+    pub old_keys: Option<(SessionKey, SessionKey)>,
+    pub awaiting_enr: Option<Vec<u8>>,
+    pub counter: u32,
+    /// Time since the cache entry was last touched.
+    pub idle: Duration,
+}
+
+#[derive(Debug, Clone)]
+pub struct ActiveRequestSnap {
+    pub addr: NodeAddress,
+    pub id: Vec<u8>,
+    pub internal: bool,
+    pub nonce: MessageNonce,
+    pub handshake_sent: bool,
+    pub initiating_session: bool,
+    pub retries: u8,
+    pub remaining_responses: Option<u64>,
+    pub body: RequestBody,
+    /// Time left until the request's timer fires (None: not in the timer queue).
+    pub remaining: Option<Duration>,
+}
+
+#[derive(Debug, Clone)]
+pub struct ChallengeSnap {
+    pub addr: NodeAddress,
+    pub challenge_data: Vec<u8>,
+    pub remote_enr_seq: Option<u64>,
+    pub remaining: Option<Duration>,
+}
+
+#[derive(Debug, Clone)]
+pub struct HandlerSnapshot {
+    pub published: Instant,
+    /// Least recently used first.
+    pub sessions: Vec<SessionSnap>,
+    pub active_requests: Vec<ActiveRequestSnap>,
+    /// Requests queued behind a handshake: (peer, [(request id, internal?)]).
+    pub pending_requests: Vec<(NodeAddress, Vec<(Vec<u8>, bool)>)>,
+    pub challenges: Vec<ChallengeSnap>,
+    pub exemptions: Vec<(SocketAddr, usize)>,
+}
+
+/* ---------------------------------------------------------------------------------------- */
+/* Routing table / query / filter / misc facades                                             */
+/* ---------------------------------------------------------------------------------------- */
+
+pub fn ip_table_filter() -> Box<dyn TableFilter<Enr>> {
+    Box::new(crate::kbucket::filter::IpTableFilter)
+}
+
+pub fn ip_bucket_filter() -> Box<dyn TableFilter<Enr>> {
+    Box::new(crate::kbucket::filter::IpBucketFilter)
+}
+
+/// Wrapper over the crate-private `PredicateQuery<NodeId, Enr>`.
+pub struct VPredicateQuery(crate::query_pool::PredicateQuery<NodeId, Enr>);
+
+impl VPredicateQuery {
+    pub fn with_config(
+        parallelism: usize,
+        num_results: usize,
+        peer_timeout: Duration,
+        target_key: crate::kbucket::Key<NodeId>,
+        known_closest_peers: Vec<crate::kbucket::PredicateKey<NodeId>>,
+        predicate: impl Fn(&Enr) -> bool + Send + 'static,
+    ) -> Self {
+        let config = crate::query_pool::PredicateQueryConfig {
+            parallelism,
+            num_results,
+            peer_timeout,
+        };
+        VPredicateQuery(crate::query_pool::PredicateQuery::with_config(
+            config,
+            target_key,
+            known_closest_peers,
+            predicate,
+        ))
+    }
+
+    pub fn on_success(&mut self, node_id: &NodeId, closer_peers: &[Enr]) {
+        self.0.on_success(node_id, closer_peers)
+    }
+
+    pub fn on_failure(&mut self, peer: &NodeId) {
+        self.0.on_failure(peer)
+    }
+
+    pub fn next(&mut self, now: Instant) -> QueryState<NodeId> {
+        self.0.next(now)
+    }
+
+    pub fn into_result(self) -> Vec<NodeId> {
+        self.0.into_result()
+    }
+
+    pub fn verif_state(&self, now: Instant) -> QuerySnap {
+        self.0.verif_state(now)
+    }
+}
+
+/// Per-peer state of an iterative query, for fingerprints. `state`: 0 not contacted, 1 waiting,
+/// 2 unresponsive, 3 failed, 4 succeeded. `progress`: 0..=n iterating with `no_progress = n`,
+/// 254 stalled, 255 finished.
+#[derive(Debug, Clone, PartialEq, Eq, Hash)]
+pub struct QuerySnap {
+    pub progress: u8,
+    pub num_waiting: usize,
+    /// (key hash, state, waiting-deadline already elapsed?, predicate match)
+    pub peers: Vec<([u8; 32], u8, bool, bool)>,
+}
+
+/// `QueryPool::add_predicate_query` (crate-private) for a pool over `NodeId`/`Enr`.
+pub fn pool_add_predicate_query<T: TargetKey<NodeId>>(
+    pool: &mut QueryPool<T, NodeId, Enr>,
+    parallelism: usize,
+    num_results: usize,
+    peer_timeout: Duration,
+    target: T,
+    peers: Vec<crate::kbucket::PredicateKey<NodeId>>,
+    predicate: impl Fn(&Enr) -> bool + Send + 'static,
+) -> QueryId {
+    let config = crate::query_pool::PredicateQueryConfig {
+        parallelism,
+        num_results,
+        peer_timeout,
+    };
+    pool.add_predicate_query(config, target, peers, predicate)
+}
+
+pub fn quota(max_tokens: u64, replenish_all_every: Duration) -> Quota {
+    Quota::verif_new(max_tokens, replenish_all_every)
+}
+
+/// Wrapper over the crate-private packet `Filter`.
+pub struct VFilter(crate::socket::verif_reexports::Filter);
+
+impl VFilter {
+    pub fn new(
+        enabled: bool,
+        rate_limiter: Option<crate::RateLimiter>,
+        max_nodes_per_ip: Option<usize>,
+        max_bans_per_ip: Option<usize>,
+        ban_duration: Option<Duration>,
+    ) -> Self {
+        VFilter(crate::socket::verif_reexports::Filter::new(
+            crate::socket::FilterConfig {
+                enabled,
+                rate_limiter,
+                max_nodes_per_ip,
+                max_bans_per_ip,
+            },
+            ban_duration,
+        ))
+    }
+
+    pub fn initial_pass(&mut self, src: &SocketAddr) -> bool {
+        self.0.initial_pass(src)
+    }
+
+    pub fn final_pass(&mut self, node_address: &NodeAddress) -> bool {
+        // The packet argument is unused by the filter.
+        let dummy = Packet::new_whoareyou([0; 12], [0; 16], ProtocolIdentity::default(), 0);
+        self.0.final_pass(node_address, &dummy)
+    }
+
+    pub fn prune_limiter(&mut self) {
+        self.0.prune_limiter()
+    }
+}
+
+/// Wrapper over the crate-private `IpVote`.
+pub struct VIpVote(crate::service::verif_reexports::IpVote);
+
+impl VIpVote {
+    pub fn new(minimum_threshold: usize, vote_duration: Duration) -> Self {
+        VIpVote(crate::service::verif_reexports::IpVote::new(
+            minimum_threshold,
+            vote_duration,
+        ))
+    }
+
+    pub fn insert(&mut self, key: NodeId, socket: SocketAddr) {
+        self.0.insert(key, socket)
+    }
+
+    pub fn majority(
+        &mut self,
+    ) -> (
+        Option<std::net::SocketAddrV4>,
+        Option<std::net::SocketAddrV6>,
+    ) {
+        self.0.majority()
+    }
+
+    pub fn has_minimum_threshold(&mut self) -> (bool, bool) {
+        self.0.has_minimum_threshold()
+    }
+}
+
+/// `findnode_log2distance` of the lookup code (distances requested from `peer` for `target`).
+pub fn findnode_log2distance(target: NodeId, peer: NodeId, size: usize) -> Option<Vec<u64>> {
+    crate::service::verif_reexports::findnode_log2distance(target, peer, size)
+}
+
+pub const MAX_NODES_RESPONSES: usize = crate::service::MAX_NODES_RESPONSES;
+
+/// A copy of the process-global permit/ban list.
+pub fn ban_list_snapshot() -> crate::PermitBanList {
+    crate::discv5::PERMIT_BAN_LIST.read().clone()
+}
+
+/// Replaces the process-global permit/ban list.
+pub fn ban_list_set(list: crate::PermitBanList) {
+    *crate::discv5::PERMIT_BAN_LIST.write() = list;
+}
